@@ -739,6 +739,13 @@ func (r *W3Run) execOps() {
 				s.logf("n%d will crash at durable-write boundary position +%d", n.idx, op.N)
 				s.out.Stat("crash_points_armed", 1)
 			}
+		case "diskerr":
+			// the N-th next Save / local snapshot of the node fails with a disk error (disk full)
+			if op.Node >= 1 && op.Node <= len(s.nodes) && s.nodes[op.Node-1].alive && op.N > 0 {
+				n := s.nodes[op.Node-1]
+				n.errAt, n.errSeen = op.N, 0
+				s.out.Stat("disk_errors_armed", 1)
+			}
 		case "restart":
 			if op.Node >= 1 && op.Node <= len(s.nodes) && !s.nodes[op.Node-1].alive {
 				if err := s.startNode(s.nodes[op.Node-1]); err != nil {
@@ -822,6 +829,7 @@ func (r *W3Run) settle() bool {
 	s.blocked = map[[2]uint64]bool{}
 	for _, n := range s.nodes {
 		n.crashAt = 0
+		n.errAt, n.errSeen = 0, 0
 	}
 	s.pump()
 	// a supervisor restarts processes that are down (start-up can fail while the
